@@ -236,6 +236,8 @@ C15Units ==
   /\ LET e == Trace[l]
      IN Consume(
           Chk("C15.year.months", e.y, e.ymonths = [i \in 1..12 |-> << e.y, i >>])
+          \* a unit built from a time value is the unit of the date that value shows
+          + (IF Has(e, "fromDate") THEN SumSeq(e.fromDate, LAMBDA r : Chk("C15.unit-from-time-value", << e.y, r >>, r[3] = r[4])) ELSE 0)
           + SumSeq(e.per, LAMBDA x :
               Chk("C15.season", << e.y, x.m >>, x.si = SeasonIndex(x.m) /\ x.sm = [i \in 1..3 |-> << e.y, SeasonMonths(x.m)[i] >>])
               + Chk("C15.halfYear", << e.y, x.m >>, x.hi = HalfYearIndex(x.m) /\ x.hm = [i \in 1..6 |-> << e.y, HalfYearMonths(x.m)[i] >>])))
